@@ -5,9 +5,6 @@ package weshnet
 import (
 	"context"
 	"fmt"
-	"math/rand"
-	"sort"
-	"strings"
 	"testing"
 
 	peer "github.com/libp2p/go-libp2p/core/peer"
@@ -16,202 +13,46 @@ import (
 	"berty.tech/weshnet/v2/internal/vsched"
 )
 
-type c16op struct {
-	kind string // assoc, upd
-	k, v uint64
-}
-
-func (o c16op) coq() string {
-	if o.kind == "assoc" {
-		return fmt.Sprintf("UAssoc %d", o.k)
-	}
-	return fmt.Sprintf("UUpd %d %d", o.k, o.v)
-}
-
-type c16scenario struct {
-	callsA, callsB int
-	viewA, viewB   map[uint64]uint64
-	ops            []c16op
-	cancel         bool
-}
-
 func c16pid(k uint64) peer.ID { return peer.ID(fmt.Sprintf("peer-%d", k)) }
 
-func c16view(m map[uint64]uint64) string {
+type c16world struct {
+	mgr  *ConnectednessManager
+	cur  [2]PeersConnectedness
+}
+
+func (w *c16world) Wait(ctx context.Context, i int) ([]uint64, bool) {
+	upd, ok := w.mgr.WaitForConnectednessChange(ctx, "g", w.cur[i])
 	var ks []uint64
-	for k := range m {
+	for _, p := range upd {
+		var k uint64
+		fmt.Sscanf(string(p), "peer-%d", &k)
 		ks = append(ks, k)
 	}
-	sort.Slice(ks, func(i, j int) bool { return ks[i] < ks[j] })
-	var s []string
-	for _, k := range ks {
-		s = append(s, fmt.Sprintf("(%d, %d)", k, m[k]))
-	}
-	return vharness.List(s)
+	return ks, ok
 }
 
-type c16res struct {
-	updated []uint64
-	ok      bool
+func (w *c16world) Apply(o vsched.NotifyOp) {
+	if o.Kind == "assoc" {
+		w.mgr.AssociatePeer("g", c16pid(o.K))
+	} else {
+		w.mgr.UpdateState(c16pid(o.K), ConnectednessType(o.V))
+	}
 }
 
-func c16ress(rs []c16res) string {
-	var s []string
-	for _, r := range rs {
-		s = append(s, fmt.Sprintf("(%s, %s)", vharness.Ns(r.updated), vharness.Bool(r.ok)))
-	}
-	return vharness.List(s)
-}
-
-func c16explore(out *vharness.Out, rng *rand.Rand, sc c16scenario, max int) int {
-	order := map[string]int{"0": 0, "1": 1, "2": 2, "99": 99}
-	two := sc.callsB > 0
-	var resA, resB []c16res
-	var curA, curB PeersConnectedness
-	var mgr *ConnectednessManager
-	var ctx context.Context
-	setup := func(c *vsched.Ctl) func(r *vsched.Run) {
-		mgr = NewConnectednessManager()
-		var cancel context.CancelFunc
-		ctx, cancel = context.WithCancel(context.Background())
-		resA, resB = nil, nil
-		mkcur := func(v map[uint64]uint64) PeersConnectedness {
-			m := PeersConnectedness{}
-			for k, x := range v {
-				m[c16pid(k)] = ConnectednessType(x)
-			}
-			return m
-		}
-		curA, curB = mkcur(sc.viewA), mkcur(sc.viewB)
-		waiter := func(calls int, cur PeersConnectedness, res *[]c16res) func() string {
-			return func() string {
-				for i := 0; i < calls; i++ {
-					upd, ok := mgr.WaitForConnectednessChange(ctx, "g", cur)
-					var ks []uint64
-					for _, p := range upd {
-						var k uint64
-						fmt.Sscanf(string(p), "peer-%d", &k)
-						ks = append(ks, k)
-					}
-					sort.Slice(ks, func(i, j int) bool { return ks[i] < ks[j] })
-					*res = append(*res, c16res{ks, ok})
-					if !ok {
-						break
-					}
-				}
-				return ""
-			}
-		}
-		c.Spawn("0", waiter(sc.callsA, curA, &resA))
-		if two {
-			c.Spawn("1", waiter(sc.callsB, curB, &resB))
-		}
-		c.Spawn("2", func() string {
-			for _, o := range sc.ops {
-				if o.kind == "assoc" {
-					mgr.AssociatePeer("g", c16pid(o.k))
-				} else {
-					mgr.UpdateState(c16pid(o.k), ConnectednessType(o.v))
-				}
-			}
-			return ""
-		})
-		if sc.cancel {
-			c.Spawn("99", func() string { cancel(); return "" })
-		}
-		return func(r *vsched.Run) { _ = cancel }
-	}
-	n := 0
-	each := func(r vsched.Run) {
-		n++
-		var sched []uint64
-		for _, s := range r.Sched {
-			var x uint64
-			fmt.Sscan(s, &x)
-			sched = append(sched, x)
-		}
-		var obs []string
-		for _, sts := range r.Obs {
-			var v []uint64
-			for _, st := range sts {
-				v = append(v, vsched.Code(st))
-			}
-			obs = append(obs, vharness.Ns(v))
-		}
-		ok, note, sig := true, "", ""
-		if r.Err != "" {
-			ok, note, sig = false, r.Err, "harness error"
-		}
-		// oracle: deadlock
-		lockWait := 0
-		for _, st := range r.Final {
-			if (st.State == "at" && !st.Enabled) || (st.State == "blocked" && (st.Kind == "lock" || st.Kind == "rlock")) {
-				lockWait++
-			}
-		}
-		if lockWait > 0 {
-			ok, sig = false, "deadlock: threads wait for mutexes that are never released"
-			note = fmt.Sprintf("schedule %v ends with %d thread(s) waiting for a held mutex (lock-order inversion between the state mutex and the notify locker)", r.Sched, lockWait)
-		}
-		// oracle: missed update — a waiter parked in select although the tracked state differs from its view
-		cancelled := ctx.Err() != nil
-		if ok && !cancelled {
-			for _, st := range r.Final {
-				if st.State == "blocked" && st.Kind == "select" && (st.Name == "0" || st.Name == "1") {
-					cur := curA
-					if st.Name == "1" {
-						cur = curB
-					}
-					var missed []string
-					if g, has := mgr.groupState["g"]; has {
-						for p := range g.peers {
-							if sp, has := mgr.peerState[p]; has {
-								if their, has := cur[p]; !has || their != sp.status {
-									missed = append(missed, string(p))
-								}
-							}
-						}
-					}
-					if len(missed) > 0 {
-						sort.Strings(missed)
-						ok, sig = false, "missed update: waiter parked although the tracked state differs from what it saw"
-						note = fmt.Sprintf("waiter %s stays blocked in WaitForConnectednessChange while peers %v differ from its view; schedule %v", st.Name, missed, r.Sched)
-					}
+func (w *c16world) Missed(i int) []uint64 {
+	var missed []uint64
+	if g, has := w.mgr.groupState["g"]; has {
+		for p := range g.peers {
+			if sp, has := w.mgr.peerState[p]; has {
+				if their, has := w.cur[i][p]; !has || their != sp.status {
+					var k uint64
+					fmt.Sscanf(string(p), "peer-%d", &k)
+					missed = append(missed, k)
 				}
 			}
 		}
-		// oracle: a cancelled wait returns a negative result, promptly (not parked at the end)
-		if ok && cancelled {
-			for _, st := range r.Final {
-				if st.State == "blocked" && (st.Name == "0" || st.Name == "1") {
-					ok, sig = false, "cancelled wait does not return"
-					note = fmt.Sprintf("waiter %s still blocked after cancellation; schedule %v", st.Name, r.Sched)
-				}
-			}
-		}
-		var ops []string
-		for _, o := range sc.ops {
-			ops = append(ops, o.coq())
-		}
-		coq := fmt.Sprintf("CNotify [] %d %s %d %s true %s %s %s %s %s %s %s", sc.callsA, c16view(sc.viewA), sc.callsB, c16view(sc.viewB),
-			vharness.Bool(two), vharness.List(ops), vharness.Bool(sc.cancel), vharness.Ns(sched), vharness.List(obs), c16ress(resA), c16ress(resB))
-		preempt := false
-		for i := 1; i < len(r.Sched); i++ {
-			if r.Sched[i] != r.Sched[i-1] {
-				preempt = true
-			}
-		}
-		out.Emit(vharness.Case{Kind: "connectedness", Coq: coq, Key: coq, Nontrivial: preempt, OracleOK: ok, Note: note, Sig: sig,
-			Replay: map[string]any{"ops": ops, "schedule": r.Sched, "cancel": sc.cancel}})
 	}
-	_, exhausted := vsched.Explore(setup, order, 300, max/2, each)
-	if !exhausted {
-		// the depth-first order varies the end of the schedule first: complement it with random schedules
-		for i := 0; i < max/2; i++ {
-			each(vsched.RunRandom(setup, order, 300, rng.Intn))
-		}
-	}
-	return n
+	return missed
 }
 
 func TestVerifC16(t *testing.T) {
@@ -219,20 +60,33 @@ func TestVerifC16(t *testing.T) {
 	defer out.Close()
 	rng := vharness.Rng()
 	budget := vharness.Budget(900, 150000)
-	scenarios := []c16scenario{
-		{callsA: 1, ops: []c16op{{"assoc", 1, 0}}},
-		{callsA: 1, ops: []c16op{{"assoc", 1, 0}, {"upd", 1, 2}}, viewA: map[uint64]uint64{1: 0}},
-		{callsA: 2, ops: []c16op{{"assoc", 1, 0}, {"upd", 1, 2}}},
-		{callsA: 1, ops: []c16op{{"upd", 1, 2}, {"assoc", 1, 0}}, cancel: true},
-		{callsA: 1, callsB: 1, ops: []c16op{{"assoc", 1, 0}}},
-		{callsA: 1, callsB: 1, ops: []c16op{{"assoc", 1, 0}, {"upd", 1, 1}}, viewB: map[uint64]uint64{1: 0}},
-		{callsA: 2, ops: []c16op{{"assoc", 1, 0}, {"assoc", 2, 0}, {"upd", 2, 2}}, cancel: true},
-		{callsA: 1, ops: []c16op{{"upd", 3, 1}}, cancel: true},
+	A, U := func(k uint64) vsched.NotifyOp { return vsched.NotifyOp{Kind: "assoc", K: k} }, func(k, v uint64) vsched.NotifyOp { return vsched.NotifyOp{Kind: "upd", K: k, V: v} }
+	scenarios := []vsched.NotifyScenario{
+		{CallsA: 1, Ops: []vsched.NotifyOp{A(1)}},
+		{CallsA: 1, Ops: []vsched.NotifyOp{A(1), U(1, 2)}, ViewA: map[uint64]uint64{1: 0}},
+		{CallsA: 2, Ops: []vsched.NotifyOp{A(1), U(1, 2)}},
+		{CallsA: 1, Ops: []vsched.NotifyOp{U(1, 2), A(1)}, Cancel: true},
+		{CallsA: 1, CallsB: 1, Ops: []vsched.NotifyOp{A(1)}},
+		{CallsA: 1, CallsB: 1, Ops: []vsched.NotifyOp{A(1), U(1, 1)}, ViewB: map[uint64]uint64{1: 0}},
+		{CallsA: 2, Ops: []vsched.NotifyOp{A(1), A(2), U(2, 2)}, Cancel: true},
+		{CallsA: 1, Ops: []vsched.NotifyOp{U(3, 1)}, Cancel: true},
+	}
+	newWorld := func(sc vsched.NotifyScenario) vsched.NotifyWorld {
+		w := &c16world{mgr: NewConnectednessManager()}
+		for i, v := range []map[uint64]uint64{sc.ViewA, sc.ViewB} {
+			w.cur[i] = PeersConnectedness{}
+			for k, x := range v {
+				w.cur[i][c16pid(k)] = ConnectednessType(x)
+			}
+		}
+		return w
 	}
 	total := 0
 	for _, sc := range scenarios {
-		total += c16explore(out, rng, sc, budget/len(scenarios)+20)
+		total += vsched.ExploreNotify(newWorld, "[]", true, "ConnectednessManager", sc, budget/len(scenarios)+20, rng.Intn, func(c vsched.NotifyCase) {
+			out.Emit(vharness.Case{Kind: "connectedness", Coq: c.Coq, Key: c.Coq, Nontrivial: c.Preempt, OracleOK: c.OK, Note: c.Note, Sig: c.Sig,
+				Replay: map[string]any{"schedule": c.Sched}})
+		})
 	}
 	t.Logf("C16 harness (connectedness): %d schedules", total)
-	_ = strings.Join
 }
